@@ -229,13 +229,17 @@ where
 
     // We accumulate all validity checks into single branches at the end in order to
     // keep the loop itself branchless.
-    let mut laps_or_zeros = 0usize;
+    let mut num_laps = 0usize;
+    let mut num_zeros = 0usize;
+    let mut num_symbols = 0usize;
     let mut accum = Probability::zero();
 
     for probability in probabilities {
         let old_accum = accum;
         accum = accum.wrapping_add(probability.borrow());
-        laps_or_zeros += (accum <= old_accum) as usize;
+        num_laps += (accum < old_accum) as usize;
+        num_zeros += (*probability.borrow() == Probability::zero()) as usize;
+        num_symbols += 1;
         let symbol = symbols.next().ok_or(())?;
         operation(symbol, old_accum, *probability.borrow())?;
     }
@@ -243,13 +247,22 @@ where
     let total = wrapping_pow2::<Probability>(PRECISION);
 
     if infer_last_probability {
-        if accum >= total || laps_or_zeros != 0 {
+        // The provided probabilities must leave some nonzero probability mass for the last
+        // symbol, and there has to be at least one other symbol (we don't support degenerate
+        // distributions). Note that `total` wraps to zero if `PRECISION == Probability::BITS`,
+        // in which case any sum that hasn't wrapped is smaller than the (unwrapped) total.
+        let exceeds_total = PRECISION != Probability::BITS && accum >= total;
+        if num_zeros != 0 || num_laps != 0 || num_symbols == 0 || exceeds_total {
             return Err(());
         }
         let symbol = symbols.next().ok_or(())?;
         let probability = total.wrapping_sub(&accum);
         operation(symbol, accum, probability)?;
-    } else if accum != total || laps_or_zeros != (PRECISION == Probability::BITS) as usize {
+    } else if num_zeros != 0
+        || num_symbols < 2
+        || accum != total
+        || num_laps != (PRECISION == Probability::BITS) as usize
+    {
         return Err(());
     }
 
